@@ -322,7 +322,7 @@ def generate(rng, tier, boost):
         cases.append(stream_case(rng.randrange(4), ms))
     # --- per type: one frame (followed by a second one) with every single-byte corruption
     for c in range(17):
-        for rep in range(reps if big else 1):
+        for rep in range(4 if big else 1):
             chain = rng.randrange(4)
             m = rand_msg(rng, c, False, safe=True)
             tail = rand_msg(rng, rng.choice([1, 13, 4]), False, safe=True)
@@ -332,7 +332,7 @@ def generate(rng, tier, boost):
             flen = len(enc_frame(MAGICS[chain], m))
             offs = list(range(min(flen, 24)))
             body = list(range(24, flen))
-            offs += body if len(body) <= (400 if big else 30) else sorted(rng.sample(body, 400 if big else 30))
+            offs += body if len(body) <= (150 if big else 30) else sorted(rng.sample(body, 150 if big else 30))
             for p in offs:
                 qs = [rng.randrange(1, 256)] + ([0x80, 0x01] if p < 24 and big else [])
                 for q in qs:
